@@ -90,6 +90,8 @@ def obj? (j : Json) : Option Obj :=
   | some "el" => (str? (getD j "caps")).map (fun s => Obj.el (caps? s))
   | some "tuple" => ((arr? (getD j "els")).bind (fun a => a.toList.mapM str?)).map
       (fun l => Obj.tuple (l.map caps?))
+  | some "list" => ((arr? (getD j "els")).bind (fun a => a.toList.mapM str?)).map
+      (fun l => Obj.list (l.map caps?))
   | _ => none
 
 def kindName : Kind → String
@@ -104,7 +106,10 @@ def methodsJson (m : Methods) : Json :=
 
 def sameJson (a b : Json) : Bool := a.compress == b.compress
 
-def runOne {σ : Type} (spec : Bool) (brs : List (Branch σ V)) (copyBuf : Bool) (flow : List V) (bs : Option Nat) : Json :=
+def runOne {σ : Type} (spec : Bool) (brs : List (Branch σ V)) (kc : List (Kind × CTree)) (copyBuf : Bool)
+    (flow : List V) (bs0 : Option Nat) : Json :=
+  -- `Split.__init__` replaces the bufsize by None when a plain-Sequence branch contains a Cache
+  let bs := cacheRule bs0 kc
   let s : Split σ V := { branches := brs, bufsize := bs, copyBuf := copyBuf }
   let tr := s.runTrace flow
   let inv := brs.map (fun b => ofList evJson (invocations b.id tr))
@@ -144,7 +149,9 @@ def ospecX? (j : Json) : Option OSpecX :=
     | _, _ => none
   | _ =>
     match hspec? j, optNat (getD j "boom_fill"), optNat (getD j "boom_gen") with
-    | some h, some bf, some bg => some (.plain { base := h, boomFill := bf, boomGen := bg })
+    | some h, some bf, some bg =>
+      some (.plain { base := h, boomFill := bf, boomGen := bg,
+                     boomExc := (str? (getD j "boom_exc")).getD "ValueError" })
     | _, _, _ => none
 
 def bufArg? (j : Json) : Option BufArg :=
@@ -196,7 +203,8 @@ def handleRunX (j : Json) : Json :=
     | .error e => Json.mkObj [("init", excJson e)]
     | .ok (bs, bad) =>
       let brs := mkBranchesX 0 osp
-      let s : SplitX NStateX V String := { branches := brs, bufsize := bs, copyBuf := cb, badBufsize := bad }
+      let bs := cacheRule bs (ospecKinds osp)
+      let s : SplitX NStateX V String := { branches := brs, bufsize := bs, copyBuf := cb, badBufsize := bad && bs.isSome }
       let rs := runsX s flows
       let ids := brs.map (·.id)
       let runsJ := (rs.zip flows).map (fun (r, flow) => runXJson ids brs.isEmpty flow r)
@@ -287,8 +295,12 @@ def handle (j : Json) : Json :=
       match osp.mapM (fun o => match o with
           | .plain h => if h.pre || h.post then none else some h.base
           | .nest _ => none) with
-      | some sp => Json.mkObj [("runs", ofList (runOne spec (mkHarnessBranches 0 sp) cb flow) bss)]
-      | none => Json.mkObj [("runs", ofList (runOne spec (mkOuterBranches 0 osp) cb flow) bss)]
+      | some sp => Json.mkObj [("runs", ofList (runOne spec (mkHarnessBranches 0 sp) (bspecKinds sp) cb flow) bss)]
+      | none =>
+        let kc := osp.map (fun o => match o with
+          | .plain h => (h.base.kind, h.base.ctree)
+          | .nest inner => (nestKind inner, CTree.seq [.split (inner.map BSpec.ctree)]))
+        Json.mkObj [("runs", ofList (runOne spec (mkOuterBranches 0 osp) kc cb flow) bss)]
     | _, _, _, _ => err "bad run args"
   | some "runx" => handleRunX j
   | some "zipctx" => handleZipCtx j
@@ -342,11 +354,19 @@ def handle (j : Json) : Json :=
     match (arr? (getD j "objs")).bind (fun a => a.toList.mapM obj?), optInt (getD j "bufsize"),
         bool? (getD j "is_list") with
     | some objs, some bs, some isList =>
-      let sj := match splitInit isList objs bs with
+      -- "cache": per argument the list of `is_cache` flags of its elements (absent: none has it)
+      let flags : List (List Bool) := match arr? (getD j "objs") with
+        | some a => a.toList.map (fun o => match arr? (getD o "cache") with
+            | some c => c.toList.map (fun b => (bool? b).getD false)
+            | none => [])
+        | none => []
+      let sj := match splitInitC isList (objs.zip flags) bs with
         | .error e => excJson e
-        | .ok (kinds, _) =>
+        | .ok (kinds, ebs) =>
           Json.mkObj [("kinds", ofList (fun k => Json.str (kindName k)) kinds),
-            ("methods", methodsJson (methodsOf kinds))]
+            ("methods", methodsJson (methodsOf kinds)),
+            -- the `_bufsize` the constructed Split works with (Cache rule applied)
+            ("bufsize", ofOpt ofNat ebs)]
       let zj := match zipInit objs with
         | .error e => excJson e
         | .ok .fillCompute => Json.mkObj [("type", "fill_compute")]
